@@ -251,8 +251,11 @@ def run_cases(seed, n):
         for o in obs:
             if o["status"] != "discharged":
                 F = mk()
-                o["reason"] = (o.get("reason") or "") + " | " + str(file_describes_formula(F, F.lp_export())) + " | " + \
-                    (str(tables_describe_formula(F)) if F.linear.shape[0] else "")
+                try:
+                    o["reason"] = (o.get("reason") or "") + " | " + str(file_describes_formula(F, F.lp_export())) + " | " + \
+                        (str(tables_describe_formula(F)) if F.linear.shape[0] else "")
+                except Exception as e:          # noqa: the annotation is best effort; the obligation already records the failure
+                    o["reason"] = (o.get("reason") or "") + f" | {type(e).__name__}: {e}"
         out += obs
     return out
 
